@@ -46,6 +46,100 @@ thread_local! {
     pub static LAST_PANIC: RefCell<String> = RefCell::new(String::new());
 }
 
+
+/// Payload types of the harness.  Every observation is printed as plain numbers, so the model and the oracles never see
+/// them; they exist so that library code which (wrongly) depends on the payload TYPES is exercised:
+///   Ky: a key whose Hash is deliberately coarse (legal: equal keys hash equally; five buckets), not Copy, not Ord —
+///       code that decides identity by hash alone, or needs more than Clone + Hash + Eq + Display, is exposed;
+///   Ev: an edge value that is 80 bytes wide, not Copy — code that takes another path for large entries is exposed.
+/// Three flavours run with (Ky, Ev); sync_ungraph runs with plain (u64, u64).
+pub trait Num: Clone {
+    fn of(x: u64) -> Self;
+    fn n(&self) -> u64;
+}
+impl Num for u64 {
+    fn of(x: u64) -> u64 {
+        x
+    }
+    fn n(&self) -> u64 {
+        *self
+    }
+}
+#[derive(Clone, PartialEq, Eq, Debug)]
+pub struct Ky(pub u64);
+impl std::hash::Hash for Ky {
+    fn hash<H: std::hash::Hasher>(&self, state: &mut H) {
+        (self.0 % 5).hash(state)
+    }
+}
+impl std::fmt::Display for Ky {
+    fn fmt(&self, f: &mut std::fmt::Formatter<'_>) -> std::fmt::Result {
+        write!(f, "{}", self.0)
+    }
+}
+impl Num for Ky {
+    fn of(x: u64) -> Ky {
+        Ky(x)
+    }
+    fn n(&self) -> u64 {
+        self.0
+    }
+}
+impl serde::Serialize for Ky {
+    fn serialize<S: serde::Serializer>(&self, s: S) -> Result<S::Ok, S::Error> {
+        s.serialize_u64(self.0)
+    }
+}
+impl<'de> serde::Deserialize<'de> for Ky {
+    fn deserialize<D: serde::Deserializer<'de>>(d: D) -> Result<Ky, D::Error> {
+        <u64 as serde::Deserialize>::deserialize(d).map(Ky)
+    }
+}
+#[derive(Clone, Debug)]
+pub struct Ev {
+    pub v: u64,
+    _pad: [u64; 9],
+}
+impl PartialEq for Ev {
+    fn eq(&self, o: &Ev) -> bool {
+        self.v == o.v
+    }
+}
+impl Eq for Ev {}
+impl PartialOrd for Ev {
+    fn partial_cmp(&self, o: &Ev) -> Option<std::cmp::Ordering> {
+        Some(self.v.cmp(&o.v))
+    }
+}
+impl Ord for Ev {
+    fn cmp(&self, o: &Ev) -> std::cmp::Ordering {
+        self.v.cmp(&o.v)
+    }
+}
+impl std::fmt::Display for Ev {
+    fn fmt(&self, f: &mut std::fmt::Formatter<'_>) -> std::fmt::Result {
+        write!(f, "{}", self.v)
+    }
+}
+impl Num for Ev {
+    fn of(x: u64) -> Ev {
+        Ev { v: x, _pad: [x; 9] }
+    }
+    fn n(&self) -> u64 {
+        self.v
+    }
+}
+impl serde::Serialize for Ev {
+    fn serialize<S: serde::Serializer>(&self, s: S) -> Result<S::Ok, S::Error> {
+        s.serialize_u64(self.v)
+    }
+}
+impl<'de> serde::Deserialize<'de> for Ev {
+    fn deserialize<D: serde::Deserializer<'de>>(d: D) -> Result<Ev, D::Error> {
+        <u64 as serde::Deserialize>::deserialize(d).map(Ev::of)
+    }
+}
+
 pub fn pu64(s: &str) -> u64 {
     s.parse().unwrap()
 }
@@ -112,6 +206,12 @@ impl Ord for Tok {
 
 
 mod d {
+    #[allow(dead_code)]
+    pub type Kt = crate::Ky;
+    #[allow(dead_code)]
+    pub type Et = crate::Ev;
+    #[allow(unused_imports)]
+    use crate::Num;
     pub const FLAVOUR: &str = "digraph";
     macro_rules! conc_step { ($nodes:expr, $progs:expr, $sched:expr) => {{ let _ = ($nodes, $progs, $sched); String::from("unsupported") }}; }
 
@@ -120,7 +220,7 @@ mod d {
     macro_rules! post_nodes { ($n:expr) => { $n.postorder().search_nodes() }; }
     macro_rules! graph_cap { ($n:expr) => { Graph::with_capacity($n) }; }
     macro_rules! graph_sizeof { ($g:expr) => { $g.sizeof() }; }
-    macro_rules! idx_ref { ($g:expr, $k:expr) => { *$g[&$k].key() }; }
+    macro_rules! idx_ref { ($g:expr, $k:expr) => { $g[&$k].key().n() }; }
     macro_rules! deg { ($n:expr) => { $n.out_degree() + $n.in_degree() }; }
 
     macro_rules! dot_attr {
@@ -134,12 +234,12 @@ mod d {
                 },
                 &|n| match na {
                     1 => Some(vec![("label".to_string(), format!("n{}", n.key()))]),
-                    2 if n.key() % 2 == 0 => Some(vec![("label".to_string(), format!("n{}", n.key())), ("v".to_string(), format!("{}", n.value()))]),
+                    2 if n.key().n() % 2 == 0 => Some(vec![("label".to_string(), format!("n{}", n.key())), ("v".to_string(), format!("{}", n.value()))]),
                     _ => None,
                 },
                 &|_u, _v, e| match ea {
                     1 => Some(vec![("w".to_string(), format!("{}", e))]),
-                    2 if e % 2 == 0 => Some(vec![("w".to_string(), format!("{}", e))]),
+                    2 if e.n() % 2 == 0 => Some(vec![("w".to_string(), format!("{}", e))]),
                     _ => None,
                 },
             )
@@ -152,6 +252,12 @@ mod d {
     include!("own.rs");
 }
 mod sd {
+    #[allow(dead_code)]
+    pub type Kt = crate::Ky;
+    #[allow(dead_code)]
+    pub type Et = crate::Ev;
+    #[allow(unused_imports)]
+    use crate::Num;
     pub const FLAVOUR: &str = "sync_digraph";
     macro_rules! conc_step { ($nodes:expr, $progs:expr, $sched:expr) => { conc::run_sched($nodes, $progs, $sched) }; }
 
@@ -160,7 +266,7 @@ mod sd {
     macro_rules! post_nodes { ($n:expr) => { $n.postorder().search_nodes() }; }
     macro_rules! graph_cap { ($n:expr) => {{ let _ = $n; Graph::new() }}; }
     macro_rules! graph_sizeof { ($g:expr) => { $g.sizeof() }; }
-    macro_rules! idx_ref { ($g:expr, $k:expr) => { *$g[&$k].key() }; }
+    macro_rules! idx_ref { ($g:expr, $k:expr) => { $g[&$k].key().n() }; }
     macro_rules! deg { ($n:expr) => { $n.out_degree() + $n.in_degree() }; }
 
     macro_rules! dot_attr {
@@ -174,12 +280,12 @@ mod sd {
                 },
                 &|n| match na {
                     1 => Some(vec![("label".to_string(), format!("n{}", n.key()))]),
-                    2 if n.key() % 2 == 0 => Some(vec![("label".to_string(), format!("n{}", n.key())), ("v".to_string(), format!("{}", n.value()))]),
+                    2 if n.key().n() % 2 == 0 => Some(vec![("label".to_string(), format!("n{}", n.key())), ("v".to_string(), format!("{}", n.value()))]),
                     _ => None,
                 },
                 &|_u, _v, e| match ea {
                     1 => Some(vec![("w".to_string(), format!("{}", e))]),
-                    2 if e % 2 == 0 => Some(vec![("w".to_string(), format!("{}", e))]),
+                    2 if e.n() % 2 == 0 => Some(vec![("w".to_string(), format!("{}", e))]),
                     _ => None,
                 },
             )
@@ -190,13 +296,13 @@ mod sd {
     use gdsl::sync_digraph::*;
     include!("directed.rs");
     include!("own.rs");
-    fn query_all(n: &Node<u64, i64, u64>) {
+    fn query_all(n: &Node<Kt, i64, Et>) {
         let _ = n.out_degree() + n.in_degree();
         let _ = n.is_root() || n.is_leaf() || n.is_orphan();
-        let _ = n.is_connected(&2);
+        let _ = n.is_connected(&Kt::of(2));
     }
 
-    fn conc_query(op: &str, n: &Node<u64, i64, u64>) -> String {
+    fn conc_query(op: &str, n: &Node<Kt, i64, Et>) -> String {
         match op {
             "deg" => format!("{}", n.out_degree()),
             "ideg" => format!("{}", n.in_degree()),
@@ -206,7 +312,7 @@ mod sd {
             other => format!("unknown-call {}", other),
         }
     }
-    fn conc_snap(n: &Node<u64, i64, u64>) -> String {
+    fn conc_snap(n: &Node<Kt, i64, Et>) -> String {
         let mut s = format!("[{} out", n.key());
         for e in n.iter_out() { s.push_str(&format!("({}>{}:{})", e.source().key(), e.target().key(), e.value())); }
         s.push_str(" in");
@@ -217,6 +323,12 @@ mod sd {
     include!("conc.rs");
 }
 mod u {
+    #[allow(dead_code)]
+    pub type Kt = crate::Ky;
+    #[allow(dead_code)]
+    pub type Et = crate::Ev;
+    #[allow(unused_imports)]
+    use crate::Num;
     pub const FLAVOUR: &str = "ungraph";
     macro_rules! conc_step { ($nodes:expr, $progs:expr, $sched:expr) => {{ let _ = ($nodes, $progs, $sched); String::from("unsupported") }}; }
 
@@ -225,7 +337,7 @@ mod u {
     macro_rules! post_nodes { ($n:expr) => { $n.order().post().search_nodes() }; }
     macro_rules! graph_cap { ($n:expr) => {{ let _ = $n; Graph::new() }}; }
     macro_rules! graph_sizeof { ($g:expr) => { $g.sizeof() }; }
-    macro_rules! idx_ref { ($g:expr, $k:expr) => { *$g[$k].key() }; }
+    macro_rules! idx_ref { ($g:expr, $k:expr) => { $g[$k.clone()].key().n() }; }
     macro_rules! deg { ($n:expr) => { $n.degree() }; }
 
     macro_rules! dot_attr {
@@ -239,12 +351,12 @@ mod u {
                 },
                 &|n| match na {
                     1 => Some(vec![("label".to_string(), format!("n{}", n.key()))]),
-                    2 if n.key() % 2 == 0 => Some(vec![("label".to_string(), format!("n{}", n.key())), ("v".to_string(), format!("{}", n.value()))]),
+                    2 if n.key().n() % 2 == 0 => Some(vec![("label".to_string(), format!("n{}", n.key())), ("v".to_string(), format!("{}", n.value()))]),
                     _ => None,
                 },
                 &|_u, _v, e| match ea {
                     1 => Some(vec![("w".to_string(), format!("{}", e))]),
-                    2 if e % 2 == 0 => Some(vec![("w".to_string(), format!("{}", e))]),
+                    2 if e.n() % 2 == 0 => Some(vec![("w".to_string(), format!("{}", e))]),
                     _ => None,
                 },
             )
@@ -257,6 +369,12 @@ mod u {
     include!("own.rs");
 }
 mod su {
+    #[allow(dead_code)]
+    pub type Kt = u64;
+    #[allow(dead_code)]
+    pub type Et = u64;
+    #[allow(unused_imports)]
+    use crate::Num;
     pub const FLAVOUR: &str = "sync_ungraph";
     macro_rules! conc_step { ($nodes:expr, $progs:expr, $sched:expr) => { conc::run_sched($nodes, $progs, $sched) }; }
 
@@ -265,7 +383,7 @@ mod su {
     macro_rules! post_nodes { ($n:expr) => { $n.order().post().search_nodes() }; }
     macro_rules! graph_cap { ($n:expr) => {{ let _ = $n; Graph::new() }}; }
     macro_rules! graph_sizeof { ($g:expr) => {{ let _ = $g; 1usize }}; }
-    macro_rules! idx_ref { ($g:expr, $k:expr) => { *$g[$k].key() }; }
+    macro_rules! idx_ref { ($g:expr, $k:expr) => { $g[$k.clone()].key().n() }; }
     macro_rules! deg { ($n:expr) => { $n.degree() }; }
 
     macro_rules! dot_attr {
@@ -279,13 +397,13 @@ mod su {
     use gdsl::sync_ungraph::*;
     include!("undirected.rs");
     include!("own.rs");
-    fn query_all(n: &Node<u64, i64, u64>) {
+    fn query_all(n: &Node<Kt, i64, Et>) {
         let _ = n.degree();
         let _ = n.is_orphan();
-        let _ = n.is_connected(&2);
+        let _ = n.is_connected(&Kt::of(2));
     }
 
-    fn conc_query(op: &str, n: &Node<u64, i64, u64>) -> String {
+    fn conc_query(op: &str, n: &Node<Kt, i64, Et>) -> String {
         match op {
             "deg" => format!("{}", n.degree()),
             "orph" => format!("{}", n.is_orphan() as u8),
@@ -293,7 +411,7 @@ mod su {
             other => format!("unknown-call {}", other),
         }
     }
-    fn conc_snap(n: &Node<u64, i64, u64>) -> String {
+    fn conc_snap(n: &Node<Kt, i64, Et>) -> String {
         let mut s = format!("[{} adj", n.key());
         for e in n.iter() { s.push_str(&format!("({}>{}:{})", e.source().key(), e.target().key(), e.value())); }
         s.push(']');
